@@ -77,6 +77,14 @@ fn make_object(ctx: &mut Ctx, rng: &mut Rng) -> Option<(ObjectFile, Json, &'stat
         let Ok(o) = eval_tree(&t, &objs) else { ctx.count("link-failed"); return None };
         let case = Json::obj().set("kind", "linked").set("tree", t.show()).set("debug", debug).set("sources", Json::Arr(files.iter().map(|f| Json::from(f.r.text.as_str())).collect()));
         Some((o, case, "linked"))
+    } else if rng.chance(1, 100) {
+        // degenerate sources: empty, whitespace, comments or structure only (with debug symbols the source text is still part of the object)
+        let text = *rng.pick(&["", " ", "\n", "\r\n", ";", "; only a comment", "\n\n\n", ".orig x3000\n.end", ".orig x3000\n.end\n", ".external FAR", "\t"]);
+        let debug = rng.chance(3, 4);
+        let o = match crate::asmutil::asm(text, debug) { Ok(Ok(o)) => o, _ => return None };
+        ctx.count("objects.degenerate-source");
+        let case = Json::obj().set("kind", "assembled").set("debug", debug).set("source", text);
+        Some((o, case, if debug { "assembled-debug" } else { "assembled-nodebug" }))
     } else if rng.chance(1, 400) {
         // one very large block, or a very long run of consecutive statement lines: chunk lengths in the object file (words x 3 bytes,
         // line-table entries x 2 bytes) pass 16-bit limits
@@ -161,6 +169,6 @@ fn run18(ctx: &mut Ctx) {
 
 fn guard(m: &Merged, _t: Tier) -> Vec<String> {
     let mut out = vec![];
-    for k in ["roundtrip.linked", "roundtrip.assembled-debug", "roundtrip.assembled-nodebug", "objects.with-relocations", "objects.with-external-decl", "objects.multi-block", "sources.crlf", "sources.non-ascii", "sources.backslash", "sources.quote", "objects.source-over-64KiB-or-65535-lines", "objects.very-large-block-or-line-run", "objects.linked-from-mixed-debug-flags"] { need(m, &mut out, k, 20); }
+    for k in ["roundtrip.linked", "roundtrip.assembled-debug", "roundtrip.assembled-nodebug", "objects.with-relocations", "objects.with-external-decl", "objects.multi-block", "sources.crlf", "sources.non-ascii", "sources.backslash", "sources.quote", "objects.source-over-64KiB-or-65535-lines", "objects.very-large-block-or-line-run", "objects.linked-from-mixed-debug-flags", "objects.degenerate-source"] { need(m, &mut out, k, 20); }
     out
 }
